@@ -5,55 +5,25 @@ From M Require ErrQueue.
 From M Require FifoProof.
 From M Require Tie.
 From M Require SystErr.
+From M Require CmdLayer.
+From M Require C12Latch.
+From M Require CmdModel.
 From M Require ErrSpec.
 From M Require FifoProof.
 From M Require FmtModel.
 From M Require HeapProof.
 From M Require QStatic.
+From M Require RegModel.
+From M Require RegProofs.
 Import ListNotations.
 
-Module T_push_refines. Import ErrQueue. Local Open Scope bool_scope. Local Open Scope Z_scope.
-Import FifoProof. Local Open Scope Z_scope.
-Theorem C10_push_refines :
-  forall s code info aok,
-  QInv s ->
-  let '(s', _, legal) := push s code info aok in
-  QInv s' /\ legal = true /\ fsize entry (q s') = fsize entry (q s) /\
-  absq s' = spec_push (fsize entry (q s)) (absq s) code (kept_text info aok).
-Proof. exact (@ErrQueue.push_refines). Qed.
-End T_push_refines.
-Definition C10_push_refines := @T_push_refines.C10_push_refines.
+Definition C10_push_refines := @ErrQueue.push_refines.
 
-Module T_pop_refines. Import ErrQueue. Local Open Scope bool_scope. Local Open Scope Z_scope.
-Import FifoProof. Local Open Scope Z_scope.
-Theorem C10_pop_refines :
-  forall s,
-  QInv s ->
-  let '(s', out, legal) := pop s in
-  QInv s' /\ legal = true /\ fsize entry (q s') = fsize entry (q s) /\ (absq s', out) = spec_pop (absq s).
-Proof. exact (@ErrQueue.pop_refines). Qed.
-End T_pop_refines.
-Definition C10_pop_refines := @T_pop_refines.C10_pop_refines.
+Definition C10_pop_refines := @ErrQueue.pop_refines.
 
-Module T_qrun_refines. Import ErrQueue. Local Open Scope bool_scope. Local Open Scope Z_scope.
-Import FifoProof. Local Open Scope Z_scope.
-Theorem C10_qrun_refines :
-  forall ops,
-  forall s, QInv s ->
-  let '(s', legal) := qrun s ops in
-  QInv s' /\ legal = true /\ absq s' = fold_left (spec_step (fsize entry (q s))) ops (absq s).
-Proof. exact (@ErrQueue.qrun_refines). Qed.
-End T_qrun_refines.
-Definition C10_qrun_refines := @T_qrun_refines.C10_qrun_refines.
+Definition C10_qrun_refines := @ErrQueue.qrun_refines.
 
-Module T_clear_spec. Import ErrQueue. Local Open Scope bool_scope. Local Open Scope Z_scope.
-Import FifoProof. Local Open Scope Z_scope.
-Theorem C10_clear_spec :
-  forall s,
-  QInv s -> let '(s', legal) := clear s in QInv s' /\ legal = true /\ absq s' = [] /\ live s' = [].
-Proof. exact (@ErrQueue.clear_spec). Qed.
-End T_clear_spec.
-Definition C10_clear_spec := @T_clear_spec.C10_clear_spec.
+Definition C10_clear_spec := @ErrQueue.clear_spec.
 
 Definition C10_add_spec := @FifoProof.add_spec.
 
@@ -61,47 +31,13 @@ Definition C10_remove_spec := @FifoProof.remove_spec.
 
 Definition C10_remove_last_spec := @FifoProof.remove_last_spec.
 
-Module T_tie_config. Import Tie. Local Open Scope bool_scope. Local Open Scope Z_scope.
-Local Open Scope Z_scope.
-Theorem C10_tie_config :
-  Generated.gen_config = [1; 1; 0; 1] /\ Generated.gen_desc_parts = 2.
-Proof. exact (@Tie.tie_config). Qed.
-End T_tie_config.
-Definition C10_tie_config := @T_tie_config.C10_tie_config.
+Definition C10_tie_config := @Tie.tie_config.
 
-Module T_systerr_refines. Import SystErr. Local Open Scope bool_scope. Local Open Scope Z_scope.
-Import FifoProof HeapProof QStatic FmtModel ErrSpec. Local Open Scope Z_scope.
-Theorem C10_systerr_refines :
-  forall s,
-  ErrQueue.QInv s ->
-  let '(s', out) := Glue.eq_systerr s in
-  let '(l', (code, text)) := ErrQueue.spec_pop (ErrQueue.absq s) in
-  ErrQueue.QInv s' /\ ErrQueue.absq s' = l' /\ fsize ErrQueue.entry (ErrQueue.q s') = fsize ErrQueue.entry (ErrQueue.q s) /\
-  out = result_error code (Glue.descz code) text Generated.gen_desc_max.
-Proof. exact (@SystErr.systerr_refines). Qed.
-End T_systerr_refines.
-Definition C10_systerr_refines := @T_systerr_refines.C10_systerr_refines.
+Definition C10_systerr_refines := @SystErr.systerr_refines.
 
-Module T_systerr_response. Import SystErr. Local Open Scope bool_scope. Local Open Scope Z_scope.
-Import FifoProof HeapProof QStatic FmtModel ErrSpec. Local Open Scope Z_scope.
-Theorem C10_systerr_response :
-  forall s,
-  ErrQueue.QInv s ->
-  let '(_, (code, text)) := ErrQueue.spec_pop (ErrQueue.absq s) in
-  nonul (Glue.descz code) -> (forall t, text = Some t -> nonul t) -> Generated.gen_desc_max = 255 ->
-  snd (Glue.eq_systerr s) =
-  fst (fst (int2str 32 code 33 10 true)) ++ [44; 34] ++ esc (take_fit 255 (whole (Glue.descz code) text)) ++ [34].
-Proof. exact (@SystErr.systerr_response). Qed.
-End T_systerr_response.
-Definition C10_systerr_response := @T_systerr_response.C10_systerr_response.
+Definition C10_systerr_response := @SystErr.systerr_response.
 
-Module T_tie_widths. Import Tie. Local Open Scope bool_scope. Local Open Scope Z_scope.
-Local Open Scope Z_scope.
-Theorem C10_tie_widths :
-  match Generated.gen_widths with
-  | [oc; ic; wr; rd; cnt; sz] => 32 <= oc /\ 32 <= ic /\ 16 <= wr /\ 16 <= rd /\ 16 <= cnt /\ 16 <= sz
-  | _ => False end.
-Proof. exact (@Tie.tie_widths). Qed.
-End T_tie_widths.
-Definition C10_tie_widths := @T_tie_widths.C10_tie_widths.
+Definition C10_tie_widths := @Tie.tie_widths.
+
+Definition C10_errcount_agrees_with_stb := @CmdLayer.errcount_agrees_with_stb.
 
